@@ -108,7 +108,10 @@ type c17WrapErr struct {
 	Inner error
 }
 
-func (e *c17WrapErr) Error() string { c17Note("Error", e.m); return "E!" + e.m + ": " + e.Inner.Error() }
+func (e *c17WrapErr) Error() string {
+	c17Note("Error", e.m)
+	return "E!" + e.m + ": " + e.Inner.Error()
+}
 func (e *c17WrapErr) Unwrap() error { return e.Inner }
 
 // error that is also a SafeValue: formatted under a safe override, the hook is still used.
@@ -183,10 +186,10 @@ type c17Operand struct {
 	err     error
 	kind    int
 	label   string
-	safeVal bool        // the operand itself switches to safe rendering (SafeValue)
-	anyMode bool        // registered safe type: whether a safe override is active where the hook runs is a matter of
+	safeVal bool // the operand itself switches to safe rendering (SafeValue)
+	anyMode bool // registered safe type: whether a safe override is active where the hook runs is a matter of
 	// RegisterSafeType (a value reached through an interface is not looked up), not of this property
-	inner   *c17Operand // the hook prints this one through p.Print
+	inner *c17Operand // the hook prints this one through p.Print
 }
 
 var c17Table []c17Operand
@@ -1223,7 +1226,7 @@ func TestVerifBoundedC17(t *testing.T) {
 	st3 := &c17Stats{maxFails: 8}
 	c17PanicLaw(t, st3)
 	c17Bounded("a panic in the hook (string, error value, runtime error) is contained: %!verb(PANIC=<method> method: <value>) after what the hook had printed, <nil> for a nil receiver, same as for a panicking SafeFormat method; rest of the format printed; hook works afterwards; bypassed under Unsafe",
-		st3, "all cases (the hook panics for a non-nil error value)", "3 panic values x 5 error operands x {top, field, slice of two, map value} x verbs {v,+v,s,d,q,w} x {plain, Safe, Unsafe} through HelperForErrorf")
+		st3, "all cases: an error operand and a hook that panics whenever it is called for it", "3 panic values x 5 error operands x {top, field, slice of two, map value} x verbs {v,+v,s,d,q,w} x {plain, Safe, Unsafe} through HelperForErrorf")
 
 	// law 4: configurations
 	st4 := &c17Stats{maxFails: 8}
